@@ -3,9 +3,11 @@ package main
 import (
 	"bytes"
 	"fmt"
+	"os"
 	"path/filepath"
 	"strings"
 	"sync"
+	"time"
 )
 
 // Canary is an edit of the frozen fixture tree (testdata/base, a snapshot of
@@ -93,7 +95,11 @@ func runCanaries(u *Universe, pc *PropertyCheck, c *Check, verif string) {
 					results[i] = CanaryResult{Name: cn.Name, Rule: cn.Rule, Expect: "fires", Reported: fmt.Sprint("panic: ", r)}
 				}
 			}()
+			t0 := time.Now()
 			results[i] = runOne(u, pc, cn, base, "canary:")
+			if os.Getenv("MQV_CANARYTIME") != "" {
+				fmt.Fprintf(os.Stderr, "canary %s %s: %.1fs\n", pc.ID, cn.Name, time.Since(t0).Seconds())
+			}
 		}(i, cn)
 	}
 	wg.Wait()
